@@ -143,6 +143,10 @@ Definition client_ext : ext obj :=
        match o, v with
        | VO (OSelf c), VI b =>
          if String.eqb a "_sign_header" then Some (Ok (VO (OSelf (cl_set_sign c (negb (b =? 0)))))) else None
+       | VO (OAuthP ap), VO (OSpnego ap') =>
+         (* the pyspnego context after one of its methods ran (written back by the interpreter): step() consumed a leg *)
+         if String.eqb a "ctx" then Some (Ok (VO (OAuthP {| ap_provider := ap_provider ap; ap_legs := ap_legs ap'; ap_complete := ap_complete ap' |})))
+         else None
        | _, _ => None
        end;
      x_call := fun f args =>
